@@ -239,6 +239,13 @@ def run_main_script(case, rec):
         rec.count("individuals_checked", len(par))
         if par != seq:
             rec.violation(f"parallel-differs-from-sequential:classes-and-settings-of-the-main-script:{which}-batch", dict(wit, parallel=par, sequential=seq))
+    par, seq = out.get("factory", (None, None))
+    if seq is not None:
+        rec.count("factory_made_abc_grammars_evaluated_in_parallel")
+        if isinstance(par, str):
+            rec.violation("parallel-evaluate:raises:classes-made-by-a-factory", dict(wit, error=par))
+        elif par != seq:
+            rec.violation("parallel-differs-from-sequential:classes-made-by-a-factory", dict(wit, parallel=par, sequential=seq))
     rec.distinct_add(["main-script", case["seed"], out["first"][1], out["second"][1]])
 
 
